@@ -124,6 +124,7 @@ func (p *Process) run() int {
 loop:
 	for {
 		verifGate(p, "run.launch")
+		p.forgetDaemonStopped()
 		err := p.setStateAndRun(p.getStartingStateName(), p.getProcessStarter())
 		if errors.Is(err, errProcessStopped) {
 			log.Debug().Str("process", p.getName()).Msg("process stopped before launch")
